@@ -31,6 +31,8 @@ def run(ctx):
     ctx.rule("C19.5", "one read guard per request, taken before resolve() and alive until resolve().await is Ready; zones argument derives from it")
     ctx.rule("C19.6", "load_zone_configuration: every Err arm sets the failure flag, the flag is never cleared, Some(..) only on its false edge; the loader cannot reach the lock")
     ctx.rule("C19.7", "what a successful (re)load contains: every listed file of every configured directory (any entry that is not a directory, so an unreadable one fails the load), each zone file merged into the zone of its apex, the hosts files combined and merged last (shared with C12.5)")
+    ctx.rule("C19.8", "the shared cache (which a reload does not replace) never receives configuration data: everything inserted into it is taken from an upstream reply (the forwarder's answers, the validated NameserverResponse), never from a merged / locally found record list")
+    ctx.rule("C19.9", "the loader reads files through tokio::fs (awaits): no blocking std::fs call inside an async body of the server, so a slow file cannot stall the worker that answers queries")
     ctx.decline("relative timing of SIGUSR1 and in-flight queries beyond the lock discipline")
 
     # ---------------------------------------------------------------- C19.1
@@ -148,6 +150,38 @@ def run(ctx):
     loader_rules(ctx, "C19.6")
     from . import C12
     C12.composition_rules(ctx, "C19.7", ctx.prog)
+    cache_sources_rule(ctx, "C19.8")
+    # C19.9
+    blocking = []
+    for fn in ctx.prog.fns.values():
+        if not fn.rec.get("coroutine") or not (fn.key.startswith("resolved::") or fn.key.startswith("dns_resolver::")):
+            continue
+        for b, t in fn.calls():
+            n_ = t.get("resolved") or t.get("callee") or ""
+            if n_.startswith("std::fs::"):
+                blocking.append((n_, fn.loc(b)))
+    ctx.check(not blocking, "C19.9", "no-blocking-fs-in-async", "file I/O in async bodies goes through tokio::fs",
+              "blocking %s inside an async body" % [x for x, _ in blocking], blocking[0][1] if blocking else None)
+
+
+def cache_sources_rule(ctx, rule):
+    """every record list handed to SharedCache::insert / insert_all comes out of an upstream reply (shared: C19.8, C06.7)"""
+    prog = ctx.prog
+    n = 0
+    for name in ("dns_resolver::cache::SharedCache::insert_all", "dns_resolver::cache::SharedCache::insert"):
+        for fn, b, t in A.who_calls(prog, name):
+            if fn.file.endswith("cache.rs"):
+                continue
+            n += 1
+            e = A.Resolver(fn).call_expr(t, b)
+            arg = e[2][1]
+            ps = A.path_str(arg) or ""
+            from_validated = ps.startswith("^nameserver_response.<")
+            from_reply = any(x[0] == "await" and A.peel(x[1])[0] == "call" and A.peel(x[1])[1].endswith("nameserver::query_nameserver") for x in A.walk(arg))
+            local = any(x[0] == "call" and (x[1].endswith("resolve_local") or x[1].endswith("prioritising_merge")) for x in A.walk(arg))
+            ctx.check((from_validated or from_reply) and not local, rule, "cache-insert-source@%s" % A.short(fn.root_key) + "#%d" % n, "cached records come out of an upstream reply",
+                      "%s caches %s, which is not (only) upstream data" % (A.short(fn.root_key), A.show(arg)[:100]), fn.loc(b))
+    ctx.floor(rule, "cache insertions outside cache.rs", n, 4)
 
 
 def loader_rules(ctx, rule):
